@@ -207,9 +207,23 @@ def scenario(res, flavour, ext, tmp, fault, case):
     pg = PGateway(flavour, VERSION, path)
     try:
         pg.start()
-        for l in base_lines(case.get("nodes", 3)):
+        lines = list(base_lines(case.get("nodes", 3)))
+        stale = None
+        if case.get("layout") == "stale-bak":
+            # an earlier save died after the new file was in place and before its backup was removed: a complete but
+            # OLDER state sits beside the good file as <file>.bak when the scheduled save fails
+            pg.eng.feed(lines.pop(0))
+            pg.tick()
+            if os.path.exists(path):
+                with open(path, "rb") as fh:
+                    stale = fh.read()
+        for l in lines:
             pg.eng.feed(l)
         pg.tick()
+        if stale is not None:
+            with open(pg.gw.tasks.persistence.persistence_bak, "wb") as fh:
+                fh.write(stale)
+            res.count("stale_backup_variants")
         saved = load_file(path)
         if saved != cur(pg):
             res.notes.append("baseline: first clean tick did not persist the state")
@@ -323,12 +337,12 @@ def run_oserror(job, res):
                     finally:
                         sh.uninstall()
                     return {"fired": lambda: sh.fired, "failed": len(SAVE_EXC) > n0}
-                for variant in ({}, {"quiet": True}, {"quiet": True, "stop_directly": True}, {"shrink": True}, {"layout": "symlink-file"}):
+                for variant in ({}, {"quiet": True}, {"quiet": True, "stop_directly": True}, {"shrink": True}, {"layout": "symlink-file"}, {"layout": "stale-bak"}):
                     if variant and err != errno.EIO:
                         continue
                     if variant.get("layout") and ops[k][0] == "write":
                         continue
-                    if variant.get("layout"):
+                    if variant.get("layout") == "symlink-file":
                         res.count("symlinked_file_variants")
                     res.evals += 1
                     scenario(res, flavour, ext, tmp, fault, dict(case, **variant))
@@ -526,7 +540,9 @@ def replay(case):
 def finish(agg, tier):
     c = agg["counters"]
     return {
-        "rule": "scenario: start, state, clean tick, change, FAULTY tick, change, clean tick, change, stop - on the real threaded timer "
+        "rule": "(in one variant per fault point a complete but older state lies beside the good file as <file>.bak, as an earlier interrupted save "
+                "leaves it: after the failed save the file must still load to the saved, the pre-save or the current state) "
+                "scenario: start, state, clean tick, change, FAULTY tick, change, clean tick, change, stop - on the real threaded timer "
                 "chain (captured Timer) and the real asyncio save loop (virtual-time loop), json and pickle. Faults: (i) EIO / ENOSPC "
                 "from every non-write file operation and every 7th write of the scheduled save; (ii) at every write point of the JSON "
                 "encoder / every write and Sensor.__getstate__ of the pickle save, a concurrent message that adds a node, a child, a "
@@ -535,7 +551,7 @@ def finish(agg, tier):
                 "variants where no further message arrives after the failed save (next tick / direct stop must still persist). A free-running "
                 "stress round (real timer thread, ms period) cross-checks that concurrent failures occur for real. distinct = "
                 "(flavour, format, fault kind, position, mutation).",
-        "floors": [("faulty_ticks", c.get("faulty_ticks", 0), 1500), ("failed_saves", c.get("failed_saves", 0), 300),
+        "floors": [("stale_backup_variants", c.get("stale_backup_variants", 0), 20), ("faulty_ticks", c.get("faulty_ticks", 0), 1500), ("failed_saves", c.get("failed_saves", 0), 300),
                    ("healing_ticks_judged", c.get("healing_ticks_judged", 0), 300), ("stops_judged", c.get("stops_judged", 0), 1000),
                    ("quiet_variants", c.get("quiet_variants", 0), 200), ("unwritable_ticks", c.get("unwritable_ticks", 0), 30)],
         "assumptions": ["concurrent mutation is produced synchronously at write points: a deterministic stand-in for the poll thread "
